@@ -319,3 +319,40 @@ func (p *Prog) FileOf(pos token.Pos) (*ast.File, *packages.Package) {
 	}
 	return nil, nil
 }
+
+// staticCallSites lists the static calls of fn in the module; complete is false when fn is also
+// used as a value (method value, function value, interface method set) so that other callers may exist.
+func (p *Prog) staticCallSites(fn *ssa.Function) (sites []ssa.Instruction, complete bool) {
+	complete = true
+	for _, f := range p.funcs {
+		Instrs(f, func(in ssa.Instruction) {
+			if cc := CallOf(in); cc != nil && cc.StaticCallee() == fn {
+				if _, isGo := in.(*ssa.Go); isGo {
+					complete = false
+				}
+				sites = append(sites, in)
+				for _, a := range cc.Args {
+					if a == ssa.Value(fn) {
+						complete = false
+					}
+				}
+				return
+			}
+			var ops []*ssa.Value
+			for _, o := range in.Operands(ops) {
+				if *o == ssa.Value(fn) {
+					complete = false
+				}
+			}
+		})
+	}
+	// a method that satisfies an interface may be called dynamically
+	if fn.Signature.Recv() != nil && p.CallGraph().Nodes[fn] != nil {
+		for _, e := range p.CallGraph().Nodes[fn].In {
+			if e.Site != nil && e.Site.Common().StaticCallee() != fn {
+				complete = false
+			}
+		}
+	}
+	return
+}
